@@ -7,6 +7,7 @@ import (
 	"crypto/sha512"
 	"encoding/hex"
 	"encoding/json"
+	"fmt"
 	"io"
 	"math/big"
 	"sync"
@@ -294,25 +295,24 @@ func runVerify(in M) (M, M) {
 		}
 		// sequential calls go through buffers that are overwritten in place from call to call:
 		// the verdict must depend on the bytes only, not on the history of the buffers
-		copy(pkBuf, b.pk)
-		sigBuf = append(sigBuf[:0], b.sig...)
-		msgBuf = append(msgBuf[:0], b.msg...)
-		ok = Verify(pkBuf, msgBuf, sigBuf)
+		// (vBuf: same backing arrays for all calls of a run, spare capacity of varying size behind the bytes, canary)
+		pkB, msgB, sigB := vBuf("ed25519 public key", b.pk), vBuf("ed25519 message", b.msg), vBuf("ed25519 signature", b.sig)
+		ok = Verify(PublicKey(pkB), msgB, sigB)
+		// the same slices again: the first call must have left them alone, so the verdict is the same
+		if ok2 := Verify(PublicKey(pkB), msgB, sigB); ok2 != ok {
+			panic(fmt.Sprintf("verif: Verify answered %v and then %v for the same three slices", ok, ok2))
+		}
 	})
 	vCatch(func() { std = stded.Verify(b.pk, b.msg, b.sig) })
 	return M{"ok": ok, "std": std, "panic": p}, b.facts
 }
 
-var (
-	pkBuf  = make(PublicKey, PublicKeySize)
-	sigBuf = make([]byte, 0, 128)
-	msgBuf = make([]byte, 0, 256)
-)
 
 type genReader struct {
 	data    []byte
 	pattern string
 	n       int
+	calls   int
 }
 
 func (g *genReader) Read(p []byte) (int, error) {
@@ -330,6 +330,20 @@ func (g *genReader) Read(p []byte) (int, error) {
 			return 0, io.ErrUnexpectedEOF
 		}
 		k = 20 - g.n
+	case "dataeof": // the last bytes arrive together with io.EOF (allowed by io.Reader; io.ReadFull takes the data)
+		k = 24
+		if len(g.data) <= k && len(p) >= len(g.data) {
+			n := copy(p, g.data)
+			g.data = nil
+			g.n += n
+			return n, io.EOF
+		}
+	case "pauses": // reads that deliver nothing (0, nil) in between, as a slow source may
+		g.calls++
+		if g.calls%2 == 0 {
+			return 0, nil
+		}
+		k = 8
 	}
 	if k > len(p) {
 		k = len(p)
@@ -353,11 +367,32 @@ func runGenKey(in M) (M, M) {
 	out["panic"] = vCatch(func() { pub, priv, err = GenerateKey(&genReader{data: append([]byte{}, seed...), pattern: pat}) })
 	spub, spriv, serr := stded.GenerateKey(&genReader{data: append([]byte{}, seed...), pattern: pat})
 	out["ok"], out["std_ok"] = err == nil, serr == nil
-	out["pub"], out["priv"], out["std_pub"], out["std_priv"] = vInts(pub), vInts(priv), vInts(spub), vInts(spriv)
+	out["pub"], out["std_pub"], out["std_priv"] = vInts(pub), vInts(spub), vInts(spriv)
+	// the caller owns what it got: it scribbles over the public key (and over the one priv.Public() hands out) and
+	// only then looks at the private key - the two results must not share memory
+	if err == nil && out["panic"] == "" {
+		out["panic"] = vCatch(func() {
+			for i := range pub {
+				pub[i] ^= 0xff
+			}
+			if p2, ok := priv.Public().(PublicKey); ok {
+				for i := range p2 {
+					p2[i] ^= 0xff
+				}
+			}
+			sd := priv.Seed()
+			for i := range sd {
+				sd[i] ^= 0xff
+			}
+			if err == nil && serr == nil && !bytes.Equal(Sign(priv, []byte("after the caller changed its copies")), stded.Sign(spriv, []byte("after the caller changed its copies"))) {
+				panic("verif: signature of the generated key differs from crypto/ed25519 after the caller overwrote the public key / seed it was given")
+			}
+		})
+	}
+	out["priv"] = vInts(priv)
 	return out, M{}
 }
 
-var reuseBuf = make(PrivateKey, PrivateKeySize)
 
 type hashedOpts struct{}
 
@@ -376,9 +411,10 @@ func runSign(in M) (M, M) {
 		Verify(PublicKey(make([]byte, PublicKeySize)), msg, bad)
 		// every signature of a run goes through ONE reused private key buffer (keys overwritten in place):
 		// signing must depend on the key bytes only, not on the history of the buffer
-		copy(reuseBuf, NewKeyFromSeed(seed))
-		priv = append(PrivateKey{}, reuseBuf...)
-		sig = Sign(reuseBuf, msg)
+		// (vBuf: one backing array per run, capacity behind the 64 bytes varies: none, 1, 64 more, 96, 4096)
+		keyB := PrivateKey(vBuf("ed25519 private key", []byte(NewKeyFromSeed(seed))))
+		priv = append(PrivateKey{}, keyB...)
+		sig = Sign(keyB, msg)
 		sig2 = Sign(NewKeyFromSeed(append([]byte{}, seed...)), append([]byte{}, msg...))
 	})
 	spriv := stded.NewKeyFromSeed(seed)
@@ -622,10 +658,12 @@ func TestVerifDriver(t *testing.T) {
 		r.Read(msg)
 		emit("ed.Sign", M{"seed": vInts(seed), "msg": vInts(msg)})
 	}
-	for k := 0; k < 12; k++ {
-		seed := make([]byte, []int{32, 32, 32, 40, 20, 0}[k%6])
-		r.Read(seed)
-		emit("ed.GenerateKey", M{"seed": vInts(seed), "pattern": []string{"whole", "halves", "onebyte", "short"}[k%4]})
+	for _, pat := range []string{"whole", "halves", "onebyte", "short", "dataeof", "pauses"} { // every delivery pattern x every amount of data
+		for _, sl := range []int{32, 33, 40, 64, 31, 20, 0} {
+			seed := make([]byte, sl)
+			r.Read(seed)
+			emit("ed.GenerateKey", M{"seed": vInts(seed), "pattern": pat})
+		}
 	}
 	// reuse of one key buffer for different keys (aliasing hazards)
 	buf := make([]byte, 32)
